@@ -120,7 +120,7 @@ def gen_case(seed, tier):
             how = rng.choice(["latest", "latest", "id", "id", "serial"])
             steps.append({"s": "open", "how": how, "rel": rng.choice([0, 0, 1, 1, 2, 3, 5, -1])})
         elif r < 0.37:
-            steps.append({"s": "close", "h": rng.randrange(8), "how": rng.choice(["rollback", "commit", "with"])})
+            steps.append({"s": "close", "h": rng.randrange(8), "how": rng.choice(["rollback", "commit", "with", "with_exc", "with_base_exc"])})
         elif r < 0.45:
             steps.append({"s": "read", "h": rng.randrange(8)})
         elif r < 0.75:
@@ -376,6 +376,15 @@ class _World:
             txn.rollback()
         elif st["how"] == "commit":
             txn.commit()
+        elif st["how"] in ("with_exc", "with_base_exc"):
+            # the reader's `with` body is left through an exception: the reader must be closed all the same
+            exc = Z.Planned if st["how"] == "with_exc" else Z.PlannedBase
+            try:
+                with txn:
+                    raise exc("reader body")
+            except (Z.Planned, Z.PlannedBase):
+                pass
+            self.res.faults.inc("reader_left_through_exception")
         else:
             with txn:
                 pass
